@@ -5,6 +5,7 @@
    1001 = -0.0, any other c = the number c/2.  ty 3 = String: the bytes as base-256
    digits after a leading 1 ("" = 1, "a" = 353).  ty 4 = GenericArray<u8,U2>: 256*x+y.
    ty 5 = Kv {k, v}: 256*k+v, equal on both fields, ordered by the key alone.
+   ty 9 = Zn: zero-sized, == always false, partial_cmp always None (comparison part only).
    ty 8 = To(i32): the value; == and cmp by value (total), partial_cmp with 77 as a NaN; hashed as write_i32 per element.
    ty 7 = Wb(u8): the value; hand-written Hash: write_u8(x); write_u8(170) (hash_slice: the provided loop).
    ty 6 = i8: the value (signed order; hashed as write_i8 / one write of the bytes).
@@ -91,6 +92,7 @@ Definition run_pair (ty : Z) (a b : list Z) : list Z :=
   | 6 => pair_obs int_eq int_pcmp a b ++ cmp_part int_eq int_cmp i8_hasht a b
   | 7 => pair_obs int_eq int_pcmp a b ++ cmp_part int_eq int_cmp wb_hasht a b
   | 8 => pair_obs to_eq to_pcmp a b ++ cmp_part to_eq to_cmp to_hasht a b
+  | 9 => pair_obs zn_eq zn_pcmp a b ++ no_ord_part
   | _ => [-2]
   end.
 
@@ -152,6 +154,7 @@ Definition run_single (ty : Z) (table : list (Z * list (list Z))) (a : list Z) :
   | 6 => single_obs (Some i8_hasht) leaf a
   | 7 => single_obs (Some wb_hasht) leaf a
   | 8 => single_obs (Some to_hasht) leaf a
+  | 9 => single_obs None leaf a
   | _ => [-2]
   end.
 
